@@ -79,4 +79,10 @@ CHECKS["C04"] = {
   "note": "exact reals; verified-frame decompositions; optimality is decided against the stated competitor families only (not the whole Grassmannian); frames from the finite library",
   "technique": TECH,
 }
+CHECKS["C05"] = {
+  "text": "The real KernelPCovR (fit/_fit/_get_kernel/transform/predict/score, KernelNormalizer underneath) is executed with training features on the factor family and fully symbolic held-out sets of 1, 2, 4 (= n) and 5 (> n) rows: every size is accepted, transform/predict equal the kernel block times the fitted projectors, score equals minus the independently written documented kernel-reconstruction loss plus relative regression loss (projector entries named as atoms); linear kernel == sample-space PCovR with the equivalent ridge (projections up to sign, predictions); named kernel == the same kernel precomputed; center=True == explicit KernelNormalizer on train and test kernels; fitted vs unfitted kernel ridge and the documented dual coefficients.",
+  "design_ref": "DESIGN.md 2/C05",
+  "note": "exact reals; kernels linear / polynomial by definition (rbf, sigmoid, cosine outside: transcendental); kernel ridge by closed form; verified-frame decompositions; one repaired defect (K_VV vs K_NN in score); held-out scoring with center=True is outside (K_VV cannot be centred by the fitted normaliser)",
+  "technique": TECH,
+}
 NOT_APPLICABLE = {}
